@@ -91,6 +91,9 @@ type End struct {
 	CloseStep int  // scheduler step at which Close was called (0 = open)
 	CloseTime time.Duration
 	NoPark    bool // ops never park (used during handshakes outside the schedule)
+	// RGate, if set, must return true for a Read to make progress (a peer
+	// that stops draining). Evaluated with the simulator lock held.
+	RGate func() bool
 }
 
 // Pipe creates a connection; a is conventionally the client side.
@@ -171,6 +174,9 @@ func (e *End) readable() bool {
 	d := e.rd
 	if e.closed {
 		return true
+	}
+	if e.RGate != nil && !e.RGate() {
+		return false
 	}
 	if d.CutAt >= 0 && d.Delivered >= d.CutAt {
 		return true
@@ -531,3 +537,15 @@ func (e *End) InWrite() bool {
 // which run with the simulator lock held.
 func (e *End) InReadLocked() bool  { return e.rEntry != nil }
 func (e *End) InWriteLocked() bool { return e.wEntry != nil }
+
+// Debug describes the endpoint state (diagnostics in violation messages).
+func (e *End) Debug() string {
+	e.S.mu.Lock()
+	defer e.S.mu.Unlock()
+	gate := "nil"
+	if e.RGate != nil {
+		gate = fmt.Sprint(e.RGate())
+	}
+	return fmt.Sprintf("%s{closed=%v in:buf=%d cap=%d delivered=%d wclosed=%v out:buf=%d cap=%d hard=%v ops=%d/%d written=%d rclosed=%v rgate=%s}",
+		e.Name, e.closed, len(e.rd.buf), e.rd.Cap, e.rd.Delivered, e.rd.wclosed, len(e.wr.buf), e.wr.Cap, e.wr.HardCap, e.wr.ops, e.wr.OpBudget, e.wr.Written, e.wr.rclosed, gate)
+}
